@@ -313,8 +313,9 @@ def run(ctx: Ctx, rep: Report) -> None:
     meth = ti.methods.get("values")
     okv = False
     if meth is not None:
-        loops = [n for n in own_nodes(meth.node) if isinstance(n, ast.For)]
-        okv = len(loops) == 1 and norm(loops[0].iter).endswith(".value.varbinds[2:]")
+        iters = [n.iter for n in own_nodes(meth.node) if isinstance(n, (ast.For, ast.comprehension))]
+        iters = [ctx.defs(meth).expand(i) for i in iters]
+        okv = bool(iters) and sum(1 for i in iters if norm(i).endswith(".value.varbinds[2:]")) == 1 and not any(".value.varbinds[" in norm(i) and ".value.varbinds[2:]" not in norm(i) for i in iters)
     rep.check(okv, "C19-R5", meth.site() if meth else f"{ti.module.path} (TrapInfo)", "TrapInfo.values covers every binding after the first two", key="TrapInfo.values|slice")
     meth = ti.methods.get("origin")
     oko = meth is not None and any(isinstance(n, ast.Return) and n.value is not None and norm(n.value).endswith(".source.address") for n in own_nodes(meth.node))
